@@ -5,6 +5,7 @@ for P in "$@"; do for k in 1 2 3; do
   D=$ROOT/$P/$k; [ -f $D/patch.diff ] || continue
   W=/tmp/cb_$$_$RANDOM
   git -C /repo worktree add -q --detach $W HEAD || continue
+  mkdir -p $W/.tmp; export TMPDIR=$W/.tmp
   if ( cd $W && git apply $D/patch.diff ); then
     [ -n "$SKIP_SUITE" ] && SU=skipped || SU=$(cd $W && PYTHONPATH=$W/perception_eval timeout 1500 /venv/bin/python -m pytest -q -p no:cacheprovider --timeout=900 -n 6 2>&1 | tail -1)
     RES=""
